@@ -583,7 +583,7 @@ func (g *G) genEntry(i int) {
 		g.fn.trace = "zt"
 		g.fn.names["zt"] = true
 		g.label("traced-entry")
-		pro = append(pro, "var zt uint64 = 0")
+		pro = append(pro, "var zt uint64 = 0", "_ = zt")
 	}
 	pro = append(pro, g.prologue(top)...)
 	rest := g.stmts(top, uReturn, 2+g.pick("estmts", g.cfg.MaxStmts), g.cfg.MaxDepth)
@@ -1082,7 +1082,66 @@ func (g *G) boolExpr(sc *scope, depth int) string {
 		}
 		return g.litOf(TBool, true)
 	}
-	switch g.pick("boolexpr", 8) {
+	switch g.pick("boolexpr", 11) {
+	case 8: // guarded slice access: the right operand is only defined when the left one holds
+		ss := g.varsOf(sc, func(v *Var) bool { return v.T.K == KSlice && v.T.Elem.IsInt() })
+		if len(ss) > 0 && !g.inIdx && !g.inKey {
+			v := ss[g.pick("guardslice", len(ss))]
+			var e string
+			if g.chance("guardlit", 30) {
+				e = fmt.Sprintf("%d", g.pick("guardidx", 9))
+			} else {
+				g.inIdx = true
+				e = g.nonConstOr(sc, TU64, 0)
+				g.inIdx = false
+			}
+			g.label("short-circuit-guards-index")
+			cmp := fmt.Sprintf("%s[%s] %s %s", use(v), e, []string{"==", "!=", "<", ">="}[g.pick("guardop", 4)], g.litOf(v.T.Elem, true))
+			if g.chance("guardor", 40) {
+				return fmt.Sprintf("(%s >= uint64(len(%s))) || (%s)", paren(e), v.Name, cmp)
+			}
+			return fmt.Sprintf("(%s < uint64(len(%s))) && (%s)", paren(e), v.Name, cmp)
+		}
+	case 9: // guarded dereference of a pointer that may be nil
+		ps := g.varsOf(sc, func(v *Var) bool { return v.T.K == KPtr && v.T.Elem.IsInt() })
+		if len(ps) > 0 {
+			v := ps[g.pick("guardptr", len(ps))]
+			g.label("short-circuit-guards-deref")
+			cmp := fmt.Sprintf("*%s %s %s", use(v), []string{"==", "!=", "<", ">="}[g.pick("guardpop", 4)], g.litOf(v.T.Elem, true))
+			if g.chance("guardpor", 40) {
+				return fmt.Sprintf("(%s == nil) || (%s)", v.Name, cmp)
+			}
+			return fmt.Sprintf("(%s != nil) && (%s)", v.Name, cmp)
+		}
+	case 10: // effectful right operand: runs only if the left operand does not decide the result
+		if !g.fn.pure && !g.inKey && depth > 0 {
+			c := g.callExpr(sc, TBool, depth, false)
+			if c == "" {
+				// a call with an integer result, compared with a literal
+				it := g.intTy("effcallty")
+				if ic := g.callExpr(sc, it, depth, false); ic != "" {
+					c = ic + " " + []string{"!=", "<", ">="}[g.pick("effcmp", 3)] + " " + g.litOf(it, true)
+				}
+			}
+			if c != "" {
+				op := []string{"&&", "||"}[g.pick("effop", 2)]
+				if g.chance("effleft", 40) {
+					// effectful LEFT operand, constant right operand: the value may be decided by the
+					// constant, the call still runs (seeded change C01-13)
+					g.label("short-circuit-effectful-left-operand")
+					r := []string{"true", "false"}[g.pick("effconst", 2)]
+					for _, cst := range g.consts {
+						if cst.T.K == KBool && g.chance("effconstname", 50) {
+							r = cst.Name
+						}
+					}
+					return fmt.Sprintf("%s %s %s", paren(c), op, r)
+				}
+				g.label("short-circuit-effectful-right-operand")
+				l := g.boolExpr(sc, 0)
+				return fmt.Sprintf("%s %s %s", paren(l), op, paren(c))
+			}
+		}
 	case 0, 1, 2: // integer comparison
 		t := g.intTy("cmpty")
 		l := g.nonConst(sc, t, depth-1)
